@@ -1,3 +1,4 @@
+-- NOTE (round 7): the exact ratio (3k-1)/(4k-2) is proved for EVERY k in PrtpyProofs/MaxMin5.lean (`MaxMin5.greedy_maxmin`); what this file calls open is closed there.
 /-
   PrtpyProofs.MaxMin4 — property C08, continued (see PrtpyProofs.MaxMin3): the exact max-min guarantee of LPT
   (`greedy`), `(3k−1)·OPT ≤ (4k−2)·L`, for FOUR bins, by discharging the mixed case `hmix` of
